@@ -9,7 +9,9 @@ RULE = ('Hypothesis-generated World histories weighted towards delete_entity(e) 
         'process() calls, with a lowest-priority sentinel processor observing the world at the moment '
         'processors start; deferred deletion of an id that owns nothing is the only legitimate source of a '
         'failing process(); handler components can be armed so that their on_remove, when it runs inside '
-        'process(), deletes (deferred or immediately) or strips another entity. Oracle: reference model of attached/pending. Non-trivial = a deferred delete with '
+        'process(), deletes (deferred or immediately) or strips another entity; outside process() armed callbacks '
+        'may issue operations as well (e.g. an on_remove running during an immediate deletion that deferred-'
+        'deletes its own entity). Oracle: reference model of attached/pending. Non-trivial = a deferred delete with '
         '>= 1 intervening operation on the same id before process, or a legitimately failed frame followed by '
         'further frames. Distinct = sha1 of canonical JSON.')
 ASSUMPTIONS = [
